@@ -161,7 +161,7 @@ class Report:
                  len(self.known_hits), len(self.violations), wall))
         if self.violations:
             return 1
-        if len(self.inconclusive) * 10 > nob or self.q["unknown"] * 10 > max(10, sum(self.q.values())):
+        if len(self.inconclusive) > max(2, nob // 100) or self.q["unknown"] * 20 > max(20, sum(self.q.values())):
             print("HARNESS: too many inconclusive obligations: %s" % self.inconclusive[:5])
             return 2
         if cov["distinct_nontrivial"] < 2 or cov["evaluations"] < 1:
